@@ -28,7 +28,11 @@ fn layer_sites(forms: &[SX]) -> Vec<(usize, usize)> {
         if f.head() == Some("deflayer") {
             if let Some(l) = f.list() {
                 for ii in 2..l.len() {
-                    v.push((fi, ii));
+                    // (calls that expand to nothing are not actions)
+                    let empty_call = matches!(l[ii].head(), Some("t!") | Some("template-expand")) && l[ii].list().and_then(|x| x.get(1)).and_then(|x| x.atom()).map(|n| n.starts_with("ze")).unwrap_or(false);
+                    if !empty_call {
+                        v.push((fi, ii));
+                    }
                 }
             }
         }
@@ -64,7 +68,29 @@ fn numeric_sites(act: &SX) -> Vec<Vec<usize>> {
 /// file, in creation order: declaration order matters for them, so the next one goes right after.
 fn rewrite(r: &mut Rng, forms: &mut Vec<SX>, files: &mut Vec<(String, String)>, n: usize, src: &[String], ntop: &mut usize) -> Option<&'static str> {
     let sites = layer_sites(forms);
-    match r.pick_w(&[22, 14, 14, 12, 10, 10, 10, 8]) {
+    match r.pick_w(&[22, 14, 14, 12, 10, 10, 10, 8, 14]) {
+        8 => {
+            // an expansion that yields nothing, inserted into a layer's action list (preferably in
+            // front of another expansion) or between top-level forms
+            let name = format!("ze{n}");
+            let ti = *ntop;
+            *ntop += 1;
+            let call = l(vec![a(if r.chance(500) { "t!" } else { "template-expand" }), a(name.clone()), a("no")]);
+            let layer_forms: Vec<usize> = forms.iter().enumerate().filter(|(_, f)| f.head() == Some("deflayer")).map(|(i, _)| i).collect();
+            if r.chance(750) && !layer_forms.is_empty() {
+                let fi = *r.pick(&layer_forms);
+                if let SX::L(v) = &mut forms[fi] {
+                    let with_exp: Vec<usize> = (2..v.len()).filter(|i| matches!(v[*i].head(), Some("t!") | Some("template-expand"))).collect();
+                    let at = if !with_exp.is_empty() && r.chance(700) { *r.pick(&with_exp) } else { r.range(2, v.len() as u64) as usize };
+                    v.insert(at.min(v.len()), call);
+                }
+            } else {
+                let at = r.range(ti as u64, forms.len() as u64) as usize;
+                forms.insert(at, call);
+            }
+            forms.insert(ti, l(vec![a("deftemplate"), a(name), l(vec![a("p")]), l(vec![a("if-equal"), a("$p"), a("yes"), a("XX")])]));
+            Some("empty-expansion")
+        }
         0 => {
             // action -> @alias (defined right before the layer that uses it)
             let (fi, ii) = *r.pick_opt(&sites)?;
